@@ -154,6 +154,12 @@ func (sc *Scope) ident(name string) Val {
 					return Val{T: sx(map[bool]string{true: "+", false: "bvadd"}[sc.x.c.Int], sc.valueOf(fr, phi), sc.convertConst(one, phi.Type()).T), Ty: phi.Type()}
 				}
 			}
+			// a range over a map: the ghost count of elements produced so far
+			for _, in := range sc.header.Instrs {
+				if nx, ok := in.(*ssa.Next); ok && !nx.IsString {
+					return Val{T: sc.x.get(sc.st, mapIterKey(nx.Iter)), Ty: types.Typ[types.Int]}
+				}
+			}
 			sc.fail("$iter used outside a range loop")
 		}
 		if sc.header != nil {
